@@ -880,6 +880,62 @@ impl Interp {
                     self.run_line(&format!("open {}", hex(&c)));
                 }
             }
+            "!corrupt" => {
+                // C17, read paths on damaged blocks: every single-byte damage (three masks) of the block
+                // region of an uncompressed file; each damaged file is opened and walked under catch_unwind.
+                // The crate may return an error or panic (a clean slice-index panic) but must never abort
+                // the process or hand out a key / value that cannot lie inside the file's bytes.
+                let b = self.last_file.clone();
+                let mut cases = 0u64;
+                let mut bad: Option<String> = None;
+                if let Ok(t) = decode::trailer(&b) {
+                    if t.codec == 0 {
+                        let end = (t.root as usize + 8).min(b.len());
+                        'outer: for at in 0..end {
+                            for mask in [0x80u8, 0x01, 0x7f] {
+                                let mut c = b.clone();
+                                c[at] ^= mask;
+                                let flen = c.len();
+                                cases += 1;
+                                let r = catch_unwind(AssertUnwindSafe(|| -> Option<String> {
+                                    let rd = match grenad::Reader::new(std::io::Cursor::new(c)) { Ok(r) => r, Err(_) => return None };
+                                    let mut cur = rd.into_cursor().ok()?;
+                                    let mut steps = 0;
+                                    let chk = |k: &[u8], v: &[u8]| if k.len() + v.len() > flen { Some(format!("entry_of_{}+{}_bytes_from_a_{}_byte_file", k.len(), v.len(), flen)) } else { None };
+                                    while let Ok(Some((k, v))) = cur.move_on_next() {
+                                        if let Some(m) = chk(k, v) { return Some(m); }
+                                        steps += 1;
+                                        if steps > 64 { break; }
+                                    }
+                                    cur.reset();
+                                    steps = 0;
+                                    while let Ok(Some((k, v))) = cur.move_on_prev() {
+                                        if let Some(m) = chk(k, v) { return Some(m); }
+                                        steps += 1;
+                                        if steps > 64 { break; }
+                                    }
+                                    if let Ok(Some((k, v))) = cur.move_on_key_greater_than_or_equal_to([0x61u8]) {
+                                        if let Some(m) = chk(k, v) { return Some(m); }
+                                    }
+                                    None
+                                }));
+                                if let Ok(Some(m)) = r {
+                                    bad = Some(format!("{}_after_xor_{:#x}_at_{}", m, mask, at));
+                                    break 'outer;
+                                }
+                            }
+                        }
+                    }
+                }
+                *self.stats.entry("corrupt_cases".into()).or_insert(0) += cases;
+                match bad {
+                    Some(m) => {
+                        self.oracle_failures += 1;
+                        self.emit(line, format!("ORACLE-FAIL {}", m), "-".into());
+                    }
+                    None => self.emit(line, "ok".into(), "-".into()),
+                }
+            }
             "bigfile" => {
                 // a large file built directly (no per-insert lines): n entries, default block size
                 let n: u32 = toks[1].parse().unwrap_or(1000);
@@ -1073,6 +1129,8 @@ impl Interp {
                         "create" => c.create_fault = Some((p[1].parse().unwrap_or(0), p[2].parse().unwrap_or(0))),
                         "op" => c.op_fault = Some((p[1].parse().unwrap_or(0), p[2].parse().unwrap_or(0))),
                         "choppy" => c.choppy = Some(Rng::new(p[1].parse().unwrap_or(0))),
+                        "wb" => c.write_behind = p[1] == "1",
+                        "big" => c.big_fail = Some((p[1].parse().unwrap_or(0), p[2].parse().unwrap_or(0))),
                         _ => {}
                     }
                 }
@@ -1375,7 +1433,7 @@ impl Interp {
             self.emit(line, "dead".into(), "-".into());
             return;
         };
-        let ops_before = self.sctl.borrow().ops;
+        let ops_before = self.sctl.borrow().faults_fired;
         let r = catch_unwind(AssertUnwindSafe(|| s.insert(&k, &v)));
         let f1 = match r {
             Ok(Ok(())) => {
@@ -1385,7 +1443,13 @@ impl Interp {
                 st
             }
             Ok(Err(e)) => {
-                grenad::verif::take_alloc_trace();
+                let trace = grenad::verif::take_alloc_trace();
+                if impl_only && self.sctl.borrow().big_fail.is_some() {
+                    // persistent-fault scenarios go on inserting after a failed call (C08: the number of
+                    // chunks alive must stay bounded however often a merge fails)
+                    let _ = Self::alloc_oracle(&mut self.alloc_live, &trace);
+                    self.sorter = Some(s);
+                }
                 e
             }
             Err(p) => {
@@ -1402,12 +1466,17 @@ impl Interp {
     /// must return `Err(Io)` carrying its tag; any other call must not fail.
     fn fault_oracle(&mut self, f1: String, ops_before: u64) -> String {
         let c = self.sctl.borrow();
-        let fired = match c.op_fault {
-            Some((n, _)) => ops_before < n && c.ops >= n,
-            None => false,
-        };
-        let tag = c.op_fault.map(|(_, t)| t).unwrap_or(0);
+        let fired = c.faults_fired > ops_before;
+        let tag = c.op_fault.map(|(_, t)| t).or(c.big_fail.map(|(_, t)| t)).unwrap_or(0);
         let ok = if fired { f1 == format!("err io {}", tag) } else { f1.starts_with("ok") };
+        // C08 evaluated on the instrumented creator: chunks alive at once
+        let maxnb = self.scfg.maxchunks.max(1) as i64;
+        if c.max_live > maxnb + 2 {
+            let m = c.max_live;
+            drop(c);
+            self.oracle_failures += 1;
+            return format!("ORACLE-FAIL {}_chunks_alive_at_once_with_max_nb_chunks={}", m, maxnb);
+        }
         drop(c);
         if ok {
             if fired { "fault-surfaced".into() } else { "ok".into() }
@@ -1426,7 +1495,7 @@ impl Interp {
         };
         let mf = self.smf.clone().unwrap();
         let ctl = self.sctl.clone();
-        let ops_before = ctl.borrow().ops;
+        let ops_before = ctl.borrow().faults_fired;
         let stable = self.scfg.stable && !self.scfg.par || self.scfg.stable;
         let r = catch_unwind(AssertUnwindSafe(|| s.finish(mode, &mf)));
         let trace = grenad::verif::take_alloc_trace();
